@@ -722,8 +722,63 @@ def _secsi_history(ctx, inj, idx):
     return sig
 
 
+def _handler_after_reenable(ctx, rounds):
+    """The application level of a GEM handler that was disabled and enabled again (once or twice): every inbound primary is
+    handed to its callback exactly once, in order, and answered once."""
+    from lib.gemrig import GemRig
+
+    rng = ctx.rng
+    for r in range(rounds):
+        role = rng.choice(["host", "equipment"])
+        rig = GemRig(role=role, t3=2.0)
+        try:
+            if not rig.establish():
+                ctx.unsure("handler re-enable: the handler did not reach COMMUNICATING with a cooperative peer (C07/C20 judge that)")
+                continue
+            cycles = rng.choice([1, 2])
+            ok = True
+            for _ in range(cycles):
+                if not rig.close(5.0):
+                    ok = False
+                    break
+                rig.handler.enable()
+                if not rig.establish():
+                    ok = False
+                    break
+            if not ok:
+                ctx.unsure("handler re-enable: the handler did not come back after disable + enable (C07/C09/C20 judge that)")
+                continue
+            seen = []
+            rig.handler.register_stream_function(99, 1, lambda h, m: seen.append(m.header.system))
+            n = rng.randint(3, 12)
+            base = 0x51000000 + r * 64
+            n0 = rig.n_frames()
+            for i in range(n):
+                rig.inject(99, 1, True, b"", base + i)
+
+            def done():
+                return len(seen) >= n
+            if not rig.wait(done, 6.0):
+                rig.confirm_absent(done)
+            rig.quiesce(0.5)
+            replies = [f.system for _, f in rig.data_frames(n0) if base <= f.system < base + n]
+            want = [base + i for i in range(n)]
+            ctx.count("oracle.handler_callbacks_after_reenable", n)
+            ctx.case(("reenable", role, cycles, n), nontrivial=True)
+            if seen != want:
+                ctx.violation("handler-callback-not-exactly-once-in-order-after-disable-and-enable",
+                              {"role": role, "enable_periods": cycles + 1, "sent": n, "callback_calls": len(seen), "first_calls": [hex(x) for x in seen[:6]]})
+            elif len(replies) > n:
+                # what is answered is C08's business; here only that nothing is handled (and therefore answered) twice
+                ctx.violation("primary-answered-more-than-once-after-disable-and-enable",
+                              {"role": role, "enable_periods": cycles + 1, "sent": n, "replies": len(replies)})
+        finally:
+            rig.shutdown()
+
+
 def run(ctx):
     vtime.install()
+    _handler_after_reenable(ctx, 3 if ctx.quick else 60)
     inj = sched.YieldInjector(["secsgem/common/protocol.py", "secsgem/common/protocol_dispatcher.py", "secsgem/hsms/protocol.py",
                                "secsgem/common/byte_queue.py", "secsgem/common/block_send_info.py"])
     inj.install()
